@@ -10,8 +10,7 @@ META = {
                    'unknown handle, ASSOCIATED or DISASSOCIATED, same or other descriptor). Post: invariant holds; a state that stopped '
                    'being associated is Dis with UnbindingMdibVersion == commit version and an end time; a newly associated one has '
                    'BindingMdibVersion == commit version and a start time; a rejected request changes nothing.',
-    'outside': ['re-association of a disassociated context state (not allowed by BICEPS)', 'one request naming the same existing state '
-                'twice', 'proposals with ContextAssociation other than Assoc / Dis', 'uniqueness of real uuid4 values (stubbed by a '
+    'outside': ['one request naming the same existing state twice', 'proposals with ContextAssociation other than Assoc / Dis', 'uniqueness of real uuid4 values (stubbed by a '
                 'counter)', 'other role providers than the tutorial GenericContextProvider', 'histories > 2 steps (induction argument)'],
 }
 F = ['sdc11073.mdib.providermdibxtra.ProviderMdibMethods.set_location', 'sdc11073.mdib.providermdibxtra.ProviderMdibMethods.disassociate_all',
